@@ -71,8 +71,8 @@ MIN = {
     'cache_hit_steps': 2000, 'name_collision_exprs': 200,
     'input:duplicate-node': 100,
     'input:duplicate-node-with-offset-and-alias-qualifier': 5,
-    'input:or-with-message-ending-in-nonword-char': 50,
-    'input:or-with-atom-text-prefix-of-another': 50,
+    'input:or-with-message-ending-in-nonword-char': 15,
+    'input:or-with-atom-text-prefix-of-another': 25,
     'input:or-with-same-output-at-points-n-and-minus-n': 5,
 }
 NCASES = {'quick': 480, 'thorough': 8000}
@@ -243,7 +243,7 @@ def build_case(rng):
         names = 'nonword-inner'
     elif r < 0.08:
         names = 'nonword-trailing'
-    elif r < 0.16:
+    elif r < 0.18:
         msg_class = 'trailing-nonword'
     elif r < 0.20:
         msg_class = 'quote'
